@@ -1044,6 +1044,10 @@ package mcp
 //@   ghost uri := at(locked, req.Params.URI)
 //@   ghost sess := at(locked, req.Session)
 //@   ensures @subscription-recorded result.1 == nil ==> at(unlocked, inDom(s.resourceSubscriptions, uri)) && at(unlocked, inDom(s.resourceSubscriptions[uri], sess))
+// (since seed C18-10) The pair is recorded under the id of THIS request, also when the session was subscribed already: the
+// cleanup of a listen removes only what that listen owns (F31), so an entry left under an older listen's id would be
+// removed when the older listen ends, while the newer one is still open.
+//@   ensures @a-renewed-subscription-belongs-to-the-newest-request result.1 == nil ==> at(unlocked, rawGet(rawGet(s.resourceSubscriptions, uri), sess)) == local(requestID)
 // "exactly the subscribed sessions": the application is asked first, and a subscription it refuses is never recorded
 // (the subscription table is only ever reached after the handler accepted).
 //@   track s.opts.SubscribeHandler as ask
@@ -2173,7 +2177,9 @@ package mcp
 // params when the message carries none (or JSON null), so each such handler must run without a run-time panic on a
 // request whose Params is nil. Only the receiver, the request and its session are assumed to exist (the dispatcher
 // builds them; see newClientMethodInfo/newServerMethodInfo).
-//@ func (*Client).callElicitationCompleteHandler [C02]
+//@ func (*Client).callElicitationCompleteHandler [C02, C03]
+//@   track h as app
+//@   ensures @the-applications-handler-has-returned-when-the-notification-is-done calls(app) <= 1 && (local(h) != nil ==> calls(app) == 1)
 //@   nopanic
 //@   callee h: modifies *
 //@   requires c != nil && req != nil && req.Session != nil
@@ -2184,7 +2190,9 @@ package mcp
 //@ func (*Client).callSubscriptionsAckHandler [C02]
 //@   nopanic
 //@   requires c != nil
-//@ func (*Server).callRootsListChangedHandler [C02]
+//@ func (*Server).callRootsListChangedHandler [C02, C03]
+//@   track h as app
+//@   ensures @the-applications-handler-has-returned-when-the-notification-is-done calls(app) <= 1 && (local(h) != nil ==> calls(app) == 1)
 //@   nopanic
 //@   callee h: modifies *
 //@   requires s != nil && req != nil
@@ -2289,17 +2297,26 @@ package mcp
 //@   requires ss != nil && ss.server != nil && params != nil
 //@   assume ss.server.opts.Logger != nil   // NewServer installs a discard logger when none is given
 //@   modifies *
-//@ func (*ServerSession).callProgressNotificationHandler [C02]
+// (C03, since seed C03-10) The glue between the dispatcher and an application's notification handler calls the handler -
+// it does not start it: the dispatcher takes the return of this function for the end of the notification and lets the next
+// message of the peer in. A handler started with `go` is not a call made.
+//@ func (*ServerSession).callProgressNotificationHandler [C02, C03]
+//@   track h as app
+//@   ensures @the-applications-handler-has-returned-when-the-notification-is-done calls(app) <= 1 && (local(h) != nil ==> calls(app) == 1)
 //@   nopanic
 //@   callee h: modifies *
 //@   requires ss != nil && ss.server != nil
 //@   modifies *
-//@ func (*ClientSession).callProgressNotificationHandler [C02]
+//@ func (*ClientSession).callProgressNotificationHandler [C02, C03]
+//@   track h as app
+//@   ensures @the-applications-handler-has-returned-when-the-notification-is-done calls(app) <= 1 && (local(h) != nil ==> calls(app) == 1)
 //@   nopanic
 //@   callee h: modifies *
 //@   requires cs != nil && cs.client != nil
 //@   modifies *
-//@ func (*Client).callLoggingHandler [C02]
+//@ func (*Client).callLoggingHandler [C02, C03]
+//@   track h as app
+//@   ensures @the-applications-handler-has-returned-when-the-notification-is-done calls(app) <= 1 && (local(h) != nil ==> calls(app) == 1)
 //@   nopanic
 //@   callee h: modifies *
 //@   requires c != nil && req != nil
@@ -2309,7 +2326,7 @@ package mcp
 // context - the timeout of a keep-alive ping (or a caller's cancellation) aborts a POST the peer accepts but never
 // answers, so an unanswered ping is counted as a miss instead of wedging the keep-alive loop; the request sent is
 // the one built around that context, and the body of an answered POST is closed.
-//@ func (*sseClientConn).Write [C13, C04]
+//@ func (*sseClientConn).Write [C13, C04, C01]
 //@   track http.NewRequestWithContext as mkReq
 //@   track Do as send
 //@   track Close as closeBody
